@@ -323,10 +323,11 @@ def repro_pool(case, mode, seed, tie_data=False):
     except Exception as e:
         return findings, dict(raised=f"{type(e).__name__}: {str(e)[:100]}")
     info["global_state_advanced"] = any(adv for _, adv in outs)
-    if o_twin != outs[0][0]:
+    if len({repr(o) for o, _ in outs}) == 1 and o_twin != outs[0][0]:
         findings.append(dict(kind="twin-differs", name="query", what="two freshly constructed strategies with equal parameters return different results for the same call (same global seed)"))
     if len({repr(o) for o, _ in outs}) > 1:
-        findings.append(dict(kind="global-rng-dependence", name="query", what=f"the result of query depends on np.random.seed(...) (seeds {GLOBAL_SEEDS}) although random_state is an integer"))
+        findings.append(dict(kind="global-rng-dependence", name="query", what=f"the result of query depends on np.random.seed(...) (seeds {GLOBAL_SEEDS}) although random_state is an integer (a repeated identical query {'also differs' if r1 != r2 else 'agrees'})"))
+        return findings, info       # same root cause as a differing repeat / twin
     if r1 != r2:
         findings.append(dict(kind="repeat-differs", name="query", what="repeating the identical query on one strategy gives a different result"))
     return findings, info
